@@ -1825,7 +1825,12 @@ func (s *SelectStatement) String() string {
 	case NoFill:
 		_, _ = buf.WriteString(" fill(none)")
 	case NumberFill:
-		_, _ = buf.WriteString(fmt.Sprintf(" fill(%v)", s.FillValue))
+		if v, ok := s.FillValue.(float64); ok {
+			// Keep it a number literal: %v would print 3.0 as "3" and 1e23 as "1e+23".
+			_, _ = buf.WriteString(fmt.Sprintf(" fill(%s)", (&NumberLiteral{Val: v}).String()))
+		} else {
+			_, _ = buf.WriteString(fmt.Sprintf(" fill(%v)", s.FillValue))
+		}
 	case LinearFill:
 		_, _ = buf.WriteString(" fill(linear)")
 	case PreviousFill:
